@@ -8,6 +8,7 @@ import Driver.OpsEV
 import Driver.OpsGraph
 import Driver.OpsLP
 import Driver.OpsCtl
+import Driver.OpsLF
 
 namespace Driver
 
@@ -33,6 +34,7 @@ def step (st : DState) (line : String) : DState × String :=
       match opsLP st.lp args with
       | some (b, out) => ({ st with lp := b }, out)
       | none => (st, "bad-op")
+  | "lf" :: args => (st, (opsLF args).getD "bad-op")
   | "graph" :: args => (st, (opsGraph args).getD "bad-op")
   | "prof" :: args => (st, (opsProf args).getD "bad-op")
   | "acct" :: args =>
